@@ -297,3 +297,43 @@ def stmts_in_order(body: Sequence[ast.stmt]) -> Iterator[ast.stmt]:
             yield from stmts_in_order(h.body)
         for c in getattr(st, "cases", []) or []:
             yield from stmts_in_order(c.body)
+
+
+def inline_locals(fn: ast.AST, expr: ast.AST, depth: int = 4, keep: Sequence[str] = ()) -> ast.AST:
+    """Copy of expr in which every Name that is bound exactly once in fn, by a plain `name = value` statement (never augmented,
+    never a loop / with / parameter / tuple target), is replaced by that value - recursively up to `depth`.  Rules that compare
+    normalised expression text use it so that introducing or removing a local alias does not change their verdict."""
+    import copy
+    binds: Dict[str, List[ast.AST]] = {}
+    multi: Set[str] = set()
+    for n in ast.walk(fn):
+        if isinstance(n, ast.Assign):
+            for t in n.targets:
+                if isinstance(t, ast.Name):
+                    binds.setdefault(t.id, []).append(n.value)
+                else:
+                    for x in ast.walk(t):
+                        if isinstance(x, ast.Name) and isinstance(x.ctx, ast.Store):
+                            multi.add(x.id)
+        elif isinstance(n, (ast.AugAssign, ast.AnnAssign)):
+            if isinstance(n.target, ast.Name):
+                multi.add(n.target.id)
+        elif isinstance(n, (ast.For, ast.comprehension)):
+            for x in ast.walk(n.target):
+                if isinstance(x, ast.Name):
+                    multi.add(x.id)
+        elif isinstance(n, ast.arg):
+            multi.add(n.arg)
+        elif isinstance(n, ast.NamedExpr) and isinstance(n.target, ast.Name):
+            multi.add(n.target.id)
+    single = {k: v[0] for k, v in binds.items() if len(v) == 1 and k not in multi and k not in keep}
+
+    class T(ast.NodeTransformer):
+        def __init__(self, d):
+            self.d = d
+
+        def visit_Name(self, node):
+            if isinstance(node.ctx, ast.Load) and node.id in single and self.d > 0:
+                return T(self.d - 1).visit(copy.deepcopy(single[node.id]))
+            return node
+    return T(depth).visit(copy.deepcopy(expr))
